@@ -158,17 +158,20 @@ let qtok (l : n list list) = join_or (List.map string_of_str l) "," "-"
 let queue_tok (w : world) =
   Printf.sprintf "%s/%s/%s/%s" (qtok w.w_nq.q_ready) (qtok w.w_nq.q_retry) (qtok w.w_cq.q_ready) (qtok w.w_cq.q_retry)
 
-let node_tok name cidrs deleting = Printf.sprintf "%s:%s:d%d" (string_of_str name) (cidrs_tok cidrs) (if deleting then 1 else 0)
+let labels_tok (ls : (n list * n list) list) : string =
+  String.concat "+" (List.sort compare (List.map (fun (k, v) -> string_of_str k ^ "=" ^ string_of_str v) ls))
+let node_tok name cidrs deleting ls =
+  Printf.sprintf "%s:%s:d%d:L%s" (string_of_str name) (cidrs_tok cidrs) (if deleting then 1 else 0) (labels_tok ls)
 let cc_tok (o : ccobj) = Printf.sprintf "%s:%s:d%d:rv%s" (string_of_str o.o_name) (fins_tok o.o_fins) (if o.o_deleting then 1 else 0) (dec_of_n o.o_rv)
 
 let api_tok (w : world) =
-  join_or (List.map (fun a -> node_tok a.an_name a.an_cidrs a.an_deleting) w.w_nodes) ";" "-" ^ "/" ^
+  join_or (List.map (fun a -> node_tok a.an_name a.an_cidrs a.an_deleting a.an_labels) w.w_nodes) ";" "-" ^ "^" ^
   join_or (List.map cc_tok w.w_ccs) ";" "-"
 
 let cache_tok (w : world) =
-  join_or (List.sort compare (List.map (fun n -> node_tok n.n_name n.n_cidrs n.n_deleting) w.w_ncache)) ";" "-" ^ "/" ^
+  join_or (List.sort compare (List.map (fun n -> node_tok n.n_name n.n_cidrs n.n_deleting n.n_labels) w.w_ncache)) ";" "-" ^ "^" ^
   join_or (List.sort compare (List.map cc_tok w.w_ccache)) ";" "-" ^
-  Printf.sprintf "/%d/%d" (List.length w.w_nfeed) (List.length w.w_cfeed)
+  Printf.sprintf "^%d^%d" (List.length w.w_nfeed) (List.length w.w_cfeed)
 
 let run (ic : in_channel) (oc : out_channel) : unit =
   load_oracles (Sys.argv.(2) ^ ".orc");
